@@ -22,6 +22,7 @@ import numpy as np
 
 from harness import core
 from harness import lib_c02c14 as L
+from harness import lib_c14cf as CF
 
 FEAT = {"inline": False, "init": True, "unused": True, "func": True, "func_in_body": True, "nested_func": True,
         "vary": True, "collide": True, "rmax": True, "mixed": True, "generic": True, "func_if": True, "ml": True}
@@ -38,7 +39,7 @@ def extract_fgraph(spec):
     from spox._public import _temporary_renames
 
     try:
-        inputs, outputs = L.realise(spec)
+        inputs, outputs = CF.realise(spec) if spec.get("kind") == "cf" else L.realise(spec)
     except Exception as e:  # noqa: BLE001 - the program itself is rejected at construction time
         return None, ("skip", f"realise: {type(e).__name__}"), []
     fps: dict[bytes, int] = {}
@@ -350,6 +351,20 @@ def case_worker(task):
 def _case_worker(task):
     seed, idx, mode = task
     rng = random.Random(f"c14:{seed}:{idx}")
+    if mode == "cf":
+        # a function whose body holds control flow, applied at differently typed call sites in one model
+        k = idx - 3 * 10**6
+        case = CF.HAND_CASES[k] if k < len(CF.HAND_CASES) else CF.gen_case(rng)
+        r = {"mode": "cf", "case": case}
+        r.update(CF.judge(case, rng))
+        if k % 3 == 0:  # the collection / de-duplication correspondence on a third of them
+            try:
+                with warnings.catch_warnings():
+                    warnings.simplefilter("ignore")
+                    r["fg"], r["real"], r["imports"] = extract_fgraph(case)
+            except Exception as e:  # noqa: BLE001
+                r["fg"], r["real"], r["imports"] = None, ("unobservable", f"{type(e).__name__}: {e}"), []
+        return r
     with warnings.catch_warnings():
         warnings.simplefilter("ignore")
         if mode == "sem":
@@ -380,6 +395,48 @@ def _case_worker(task):
             except Exception as e:  # noqa: BLE001
                 r["fg"], r["real"], r["imports"] = None, ("unobservable", f"{type(e).__name__}: {e}"), []
         return r
+
+
+def judge_cf(ck, cf_results):
+    """Verdicts for functions with control flow in the body at differently typed call sites."""
+    st = {"cases": len(cf_results), "returned": 0, "rejected_two_definitions": 0, "other_refusal_single_site_too": 0,
+          "typed_differently": 0, "typed_differently_and_returned": 0, "by_body": {}, "runtime": {}}
+    best = {}
+    for r in cf_results:
+        case = r["case"]
+        differ = CF.types_differ(case)
+        st["typed_differently"] += int(differ)
+        b = st["by_body"].setdefault(case["body"] + "/" + case["form"], {"returned": 0, "raised": 0})
+        if r["status"] == "err":
+            b["raised"] += 1
+            st["rejected_two_definitions"] += int("two different definitions" in r.get("err", ""))
+            st["other_refusal_single_site_too"] += int(bool(r.get("unsupported_single_site")))
+            ck.count(None)
+        else:
+            b["returned"] += 1
+            st["returned"] += 1
+            st["typed_differently_and_returned"] += int(differ)
+            st["runtime"][str(r.get("runtime"))[:40]] = st["runtime"].get(str(r.get("runtime"))[:40], 0) + 1
+            ck.count(("cf", json.dumps(case, sort_keys=True)))
+        for key, what in r["fails"]:
+            cur = best.get(key)
+            if cur is None or len(json.dumps(case)) < len(json.dumps(cur[1])):
+                best[key] = (what, case, r.get("feeds"))
+    for key, (what, case, feeds) in list(best.items())[:4]:
+        def same(c, key=key):
+            return any(k == key for k, _ in CF.judge(c, random.Random(0))["fails"])
+
+        try:
+            small = CF.shrink(case, same)
+            if small != case:
+                r2 = CF.judge(small, random.Random(0))
+                f2 = [w for k, w in r2["fails"] if k == key]
+                if f2:
+                    case, what, feeds = small, f2[0], r2.get("feeds")
+        except Exception:  # noqa: BLE001
+            pass
+        ck.failure(key, what, {"cf": case, "feeds": feeds})
+    ck.cov["control_flow_bodies_at_differently_typed_sites"] = st
 
 
 def _calls_in_bodies(stmts, inside):
@@ -544,6 +601,8 @@ def run(ck: core.Check):
     tasks = ([(ck.seed, i, "oracle") for i in range(n_oracle)]
              + [(ck.seed, 10**6 + i, "collect") for i in range(n_collect)]
              + [(ck.seed, 2 * 10**6 + i, "sem") for i in range(n_sem)])
+    n_cf = len(CF.HAND_CASES) + pick(300, 2500)
+    tasks += [(ck.seed, 3 * 10**6 + i, "cf") for i in range(n_cf)]
     results = L.robust_map(case_worker, tasks, min(14, mp.cpu_count()), core.WORK)
     rng = ck.rng
     for hs in HAND_SPECS:
@@ -559,6 +618,12 @@ def run(ck: core.Check):
         ck.broken("correspondence", "C14 generated-program worker failed",
                   f"{len(crashes)} cases; first: {crashes[0]['crash']} {crashes[0].get('trace', '')[-400:]}")
     results = [r for r in results if not r.get("crash")]
+    cf_results = [r for r in results if r["mode"] == "cf"]
+    results = [r for r in results if r["mode"] != "cf"]
+    judge_cf(ck, cf_results)
+    # (their structure also goes through the collection / imports correspondences below)
+    cf_collect = [{"mode": "collect", "spec": r["case"], "fg": r["fg"], "real": r["real"], "imports": r["imports"],
+                   "status": "cf", "stats": None, "fails": []} for r in cf_results if "fg" in r]
     unobs = [r for r in results if r["mode"] == "collect" and r.get("real") and r["real"][0] == "unobservable"]
     if unobs:
         ck.broken("correspondence", "C14 function collection not observable (real Builder/Function internals changed?)",
@@ -612,7 +677,7 @@ def run(ck: core.Check):
 
     if drv is not None:
         # ---- (a) collection correspondence
-        col = [r for r in results if r["mode"] == "collect" and r.get("fg") is not None
+        col = [r for r in results + cf_collect if r["mode"] == "collect" and r.get("fg") is not None
                and r["real"][0] not in ("skip", "unobservable")]
         outs = drv.ask_many("C14", [{"k": "collect", "g": r["fg"]} for r in col])
         mism = 0
@@ -636,7 +701,7 @@ def run(ck: core.Check):
         cst["mismatches"] = mism
         ck.cov["collection"] = cst
         # ---- (b) imports
-        recs = [rec for r in results if r["mode"] == "collect" for rec in (r.get("imports") or [])]
+        recs = [rec for r in results + cf_collect if r["mode"] == "collect" for rec in (r.get("imports") or [])]
         seen, uniq = set(), []
         for rec in recs:
             k = json.dumps(rec, sort_keys=True)
@@ -728,6 +793,13 @@ def run(ck: core.Check):
 
 def replay(ck: core.Check, doc) -> bool:
     case = doc.get("case") or {}
+    if case.get("cf") is not None:
+        r = CF.judge(case["cf"], random.Random(0), case.get("feeds"))
+        if r["status"] == "err":
+            print("build raised:", r["err"])
+        for k, w in r["fails"]:
+            print(f"{k}: {w}")
+        return bool(r["fails"])
     spec = case.get("spec")
     if spec is None:
         print("replay file names broken obligations only:", [b["name"] for b in doc.get("broken", [])])
